@@ -60,6 +60,12 @@ func main() {
 		os.Exit(2)
 	}
 	r := mon.New(id, c.Level, tier)
+	// a workload whose goroutines are all blocked for good, one of them inside the library, is a deadlock of the library (decided
+	// by global quiescence, see mon.DeadlockMonitor); the C20 children run their own instance
+	go mon.DeadlockMonitor(func(site, dump string) {
+		r.Violation(id+"/deadlock@"+site, "every goroutine of the check is blocked for good, at least one of them inside the library ("+site+"); nothing left in the process can wake them", map[string]any{"goroutines": dump})
+		os.Exit(r.Finish(c.Rule))
+	})
 	func() {
 		defer func() {
 			if e := recover(); e != nil {
